@@ -81,6 +81,7 @@ func (p *service) processor() {
 			}
 			return
 		}
+		verifEvent("packet-handled", p.id, int(mtype))
 
 		// 7. Check to see if done is closed, if so, exit
 		if p.isDone() && p.in.Len() == 0 {
